@@ -27,11 +27,12 @@ ASSUMPTIONS = [
     "not enumerated",
     "float64 intermediate then cast to the input dtype: integer results may differ by one unit "
     "where the exact value is an integer (summation order), float32 by 2 ulp",
-    "histories: alphabet of 72 (Deltas) / 48-72 (Stack) calls over shapes (4,), (3,4), (2,3,2) / (5,2), (2,3), "
+    "histories: alphabet of 72 (Deltas) / 48 (Stack) calls over shapes (4,), (3,4), (2,3,2) / (5,2), (2,3), "
     "(3,2,4) x every valid axis x {float64, float32, int16} x in_place; merged search to depth 3 (quick) / 4 "
     "(thorough): the canonical form (instance attributes, class attributes, module-level data of "
     "pydrobert.speech.post) is assumed to hold all state; the un-merged enumeration of all sequences of 2 "
-    "(quick) / 3 (thorough) calls does not depend on that assumption; a result that is bit-identical to a fresh "
+    "(quick) / 3 (thorough; 2 for the Deltas configurations with a non-default window or padding) calls does "
+    "not depend on that assumption; a result that is bit-identical to a fresh "
     "object's is accepted, otherwise the tolerance against the reference decides",
 ]
 
@@ -504,28 +505,44 @@ def _eval_history(cfg, seed, tier, replay_ops=None):
             v["case"] = dict(proc=H.proc, history=True, config=cfg, ops=replay_ops)
         return core.result(viol)
     depth = 3 if tier == "quick" else 4
-    plain = 2 if tier == "quick" else 3
-    viol = list(H.fresh_viol)
+    plain = cfg.get("plain", 2)
+    first = cfg.get("first")
+    if len(H.letters) != (72 if H.proc == "Deltas" else 48):
+        raise core.HarnessError("alphabet size %d: the shards by first letter would not cover it" % len(H.letters))
+    viol, obs = [], set()
+    st = None
+    if first is None:
+        viol = list(H.fresh_viol)
 
-    # (a) explicit-state search with merging
-    def ops(s):
-        return H.letters if len(s.hist) < depth else ()
+        # (a) explicit-state search with merging
+        def ops(s):
+            return H.letters if len(s.hist) < depth else ()
 
-    def step(s, L):
-        obj = copy.deepcopy(s.obj)
-        v, o = H.call(obj, L, s.hist)
-        return _HSt(obj, s.hist + (H.key(L),)), v, o
+        def step(s, L):
+            obj = copy.deepcopy(s.obj)
+            v, o = H.call(obj, L, s.hist)
+            return _HSt(obj, s.hist + (H.key(L),)), v, o
 
-    def key(s):
-        return (computers.canon_value(s.obj), computers.class_state(type(s.obj)), _post_state())
+        def key(s):
+            return (computers.canon_value(s.obj), computers.class_state(type(s.obj)), _post_state())
 
-    st = explorer.bfs(lambda: _HSt(H.make(), ()), ops, step, key, max_states=3000, max_viol=60)
-    viol.extend(st.violations)
-    # (b) every sequence of `plain` calls, a new object per sequence, nothing merged or copied
+        st = explorer.bfs(lambda: _HSt(H.make(), ()), ops, step, key, max_states=3000, max_viol=60)
+        viol.extend(st.violations)
+        obs = set(st.observations)
+    # (b) every sequence of `plain` calls, a new object per sequence, nothing merged or copied; for
+    # plain >= 3 this part is sharded over points by the first letter of the sequence
     seqs = calls = 0
-    obs = set(st.observations)
-    if len(viol) < 60:
-        for seq in itertools.product(H.letters, repeat=plain):
+    if first is not None:
+        heads = [H.letters[first]]
+    elif plain <= 2:
+        heads = H.letters
+    else:
+        heads = []
+    for head in heads:
+        if len(viol) >= 60:
+            break
+        for rest in itertools.product(H.letters, repeat=plain - 1):
+            seq = (head,) + rest
             obj, hist = H.make(), ()
             seqs += 1
             for i, L in enumerate(seq):
@@ -550,29 +567,44 @@ def _eval_history(cfg, seed, tier, replay_ops=None):
         if h not in seen:
             seen.add(h)
             uniq.append(v)
+    tr = st.transitions if st is not None else 0
     return core.result(
-        uniq, evals=st.transitions + seqs, nontrivial_count=max(0, st.transitions - len(H.letters)) + seqs,
-        obs=sorted(map(str, obs)), obs_is_set=True, states=st.states, transitions=st.transitions,
-        impl_calls=st.transitions + calls + len(H.letters),
-        capped=st.capped if (st.capped and not uniq) else None,
-        sample=dict(config=cfg, letters=len(H.letters), bfs_states=st.states, bfs_transitions=st.transitions,
-                    bfs_depth_bound=depth, bfs_closed=st.closed, plain_sequences=seqs, plain_length=plain))
+        uniq, evals=tr + seqs, nontrivial_count=max(0, tr - len(H.letters)) + seqs,
+        obs=sorted(map(str, obs)), obs_is_set=True, states=st.states if st is not None else 0, transitions=tr,
+        impl_calls=tr + calls + len(H.letters),
+        capped=st.capped if (st is not None and st.capped and not uniq) else None,
+        sample=dict(config=cfg, letters=len(H.letters), bfs_states=st.states if st is not None else None,
+                    bfs_transitions=tr, bfs_depth_bound=depth, plain_sequences=seqs, plain_length=plain))
 
 
-def _history_configs():
-    out = []
+def _history_configs(tier):
+    """quick: un-merged sequences of 2 calls everywhere.  thorough: 3 calls for every Stack
+    configuration and for the Deltas configurations with the default window / padding (one
+    Deltas call costs ~20x a Stack call; 3 calls over 72 letters for all 32 Deltas
+    configurations would take 2 h of CPU), 2 calls for the other Deltas configurations."""
+    base = []
     for nd in (1, 2):
         for concat in (True, False):
             for ta in (0, -1):
                 for window in (1, 2):
                     for mode in ("edge", "reflect"):
-                        out.append(dict(proc="Deltas", num_deltas=nd, concatenate=concat, target_axis=ta,
-                                        window=window, mode=mode))
+                        c = dict(proc="Deltas", num_deltas=nd, concatenate=concat, target_axis=ta,
+                                 window=window, mode=mode)
+                        c["plain"] = 3 if (tier != "quick" and window == 2 and mode == "edge") else 2
+                        base.append((c, 72))
     for nv in (1, 2, 3):
         for time_axis in (0, 1, -1, -2):
             for pad in (None, "edge", "constant:7"):
-                out.append(dict(proc="Stack", num_vectors=nv, time_axis=time_axis, pad=pad))
-    return out
+                base.append((dict(proc="Stack", num_vectors=nv, time_axis=time_axis, pad=pad,
+                                  plain=2 if tier == "quick" else 3), 48))
+    out, shards = [], []
+    for c, nletters in base:
+        out.append(c)
+        if c["plain"] >= 3:
+            shards += [dict(c, first=i) for i in range(nletters)]
+    # the expensive shards (Deltas) first
+    shards.sort(key=lambda c: c["proc"] != "Deltas")
+    return shards + out
 
 
 def _cost(pt):
@@ -583,7 +615,7 @@ def subchecks(tier, seed):
     # most expensive points first (better balance over the workers); the set is unchanged
     dpts = sorted([(s, d) for s in _shapes(tier) for d in DTYPES], key=_cost)
     spts = sorted([(s, d) for s in _shapes(tier, 2) for d in DTYPES], key=_cost)
-    hpts = _history_configs()
+    hpts = _history_configs(tier)
     modes = MODES_QUICK if tier == "quick" else MODES_FULL
     return [
         core.SubCheck(
@@ -614,10 +646,10 @@ def subchecks(tier, seed):
             "histories", hpts, lambda c: _eval_history(c, seed, tier),
             "ONE Deltas / Stack object per configuration used for sequences of apply() calls over an "
             "alphabet shape x axis x dtype x in_place: (a) BFS with state merging on the object's "
-            "canonical form to depth %d, (b) every sequence of %d calls on a new object without merging; "
+            "canonical form to depth %d, (b) every sequence of %s calls on a new object without merging; "
             "every result compared with a fresh object's (bit-identical, else with the reference model); "
             "non-trivial = a call that is not the first on its object" % (
-                (3, 2) if tier == "quick" else (4, 3)),
+                (3, "2") if tier == "quick" else (4, "3 (2 for Deltas with non-default window/padding)")),
             axes=dict(deltas_config=dict(num_deltas=[1, 2], concatenate=[True, False], target_axis=[0, -1],
                                          context_window=[1, 2], pad_mode=["edge", "reflect"]),
                       stack_config=dict(num_vectors=[1, 2, 3], time_axis=[0, 1, -1, -2],
